@@ -663,7 +663,7 @@ fn race2_case(rng: &mut Rng, ctx: &mut Ctx) {
     let k = if rng.chance(3, 4) { rng.urange(120, 131) } else { rng.urange(0, 135) };
     let k2 = rng.urange(0, 3);
     let s0 = wire(st_of(rng.u64()));
-    let mut mk = |rng: &mut Rng| if rng.chance(2, 5) { ROp::Clear } else { ROp::Set(wire(st_of(rng.u64()))) };
+    let mk = |rng: &mut Rng| if rng.chance(2, 5) { ROp::Clear } else { ROp::Set(wire(st_of(rng.u64()))) };
     let a = mk(rng);
     let b = mk(rng);
     ctx.begin("race2", json!({"budget_burned_by_A": k, "initial": s0, "A": format!("{:?}", a), "B": format!("{:?}", b)}));
